@@ -12,6 +12,13 @@ BASELINE_OFF = ("cd /repo && env -u MAPPYFILE_VERIF /venv/bin/python -m pytest -
 
 # id -> (technique, level text, level note, design ref)
 CHECKS = {
+    "C10": ("boundary relation: intended expression tree vs the string stored by the real parser, read back by an "
+            "independent tokenizer + precedence parser; fixed-point and printed-unquoted relations on the same events",
+            "All operator structures up to 3 (quick) / 4 (thorough) operators and random trees up to 12 operators, every "
+            "operator spelling and leaf kind, six host keywords; each stored string is parsed under the property's "
+            "precedence table and compared with the tree the generator intended. Held on the trees observed.",
+            "Trusted: mf/exprmodel.py (precedence table as stated in the property); numbers compared by value.",
+            "DESIGN.md 2 C10"),
     "C17": ("reference-model shadow stepped in lock-step with the real dict + icontract class invariant, over an "
             "exhaustive BFS of abstract states and random walks",
             "Every operation sequence up to the stated depth over a 7-key / 4-value alphabet is executed on the real "
